@@ -1,9 +1,11 @@
 #!/usr/bin/env python3
 """Prints the markdown table of DESIGN.md 8.6 from /verif/seeded/*/meta.json (last run per check)."""
-import glob, json, os, re
+import glob, json, os, re, sys
+
+suffix = sys.argv[1] if len(sys.argv) > 1 else ""  # "m": round 1, "n": round 2, "": all
 
 rows = []
-for d in sorted(glob.glob("/verif/seeded/*/")):
+for d in sorted(glob.glob("/verif/seeded/*-%s*/" % suffix)):
     m = json.load(open(d + "meta.json"))
     last = {}
     for r in m.get("check_runs", []):
